@@ -43,6 +43,7 @@ def funcByName : String → Option FuncSig
   | "b2i" => some (.simple [(.field, .bool)] [] .int 8)
   | "blen" => some (.simple [(.field, .array .bool)] [] .int 9)
   | "len2" => some (.simple [(.field, .bytes)] [(.both, .bytes [])] .int 10)
+  | "nil0" => some (.simple [] [] .bool 11)
   | "concat" => some .concat
   | "ctxfn" => some .ctxCounter
   | _ => none
